@@ -371,7 +371,7 @@ Definition flat_probe_result (k : hkind) (depth : nat) (net : network) (p : path
 (* ONE-LINE MODEL SWITCH (read by harness/c20.py): false = the code as it is (finding F4: a node_values key that is too
    short for the hierarchy and whose node part names a CIRCUIT is dropped silently: get_nodes returns the circuit name,
    no node consumes the value); true = the code with /verif/fixes/proposed_fix_C20_F4.diff (warns). *)
-Definition fixed_F4 : bool := false.
+Definition fixed_F4 : bool := true.
 (* `*node_id, op, var = key.split('/')`: the node part of a key *)
 Definition node_part (p : path) : list string := removelast (removelast p).
 Definition too_short (depth : nat) (p : path) : bool := Nat.ltb (List.length (node_part p)) (S depth).
